@@ -8,13 +8,20 @@ are enumerated (sampled above a cap).  Oracle: each task's output equals the
 output of the same (template, data) rendered alone in a fresh environment.  State
 that is global to the process is shared by concurrent tasks too: the first renders
 of every shard process serve as alone-outputs of an untouched process, and every
-task is rendered alone again after the schedules of its case."""
+task is rendered alone again before and after the schedules of its case.  The
+fragments include every built-in filter in plain and rare argument forms (the
+forms that touch environment policies and other state outside the call), used by
+both tasks before and after their await points; environments carry policy values
+of their own or the process-wide defaults."""
 from __future__ import annotations
 
 import asyncio
 import re
 
+import copy
+
 from vt import core
+from vt.mon import c37_filters as FF
 from vt.mon import c37_gen as GEN
 from vt.mon import c37_kinds as KN
 
@@ -29,7 +36,27 @@ RULE = ("case = generated template set (import library cached per environment, w
         "an imported macro and in an included template), imported macros incl. call blocks / local namespace / "
         "cycler+joiner / defaults / recursion, autoescape blocks (constant and data-dependent), "
         "local macros and call blocks, set/filter blocks, with, recursive loops, async filters, "
-        "loop filters, top-level assignments, super()/self.block(); SHARED EVAL CONTEXT OF THE CACHED "
+        "loop filters, top-level assignments, super()/self.block(); ARGUMENT FORMS OF THE BUILT-IN "
+        "FILTERS ('filter-forms' fragments): every name in Environment.filters (54) has 1-2 plain "
+        "and 0-4 rare argument forms in a table (62 rare forms of 32 filters: tojson(indent=) / "
+        "positional, truncate(leeway=) / killwords / positional, urlize(extra_schemes= / target= / "
+        "rel= / trim+nofollow), sort / dictsort / unique / groupby / min / max(case_sensitive=), "
+        "attribute= / default= / start= / fill_with= forms, wordwrap(break_long_words= / wrapstring= "
+        "/ break_on_hyphens=), indent(first= / blank= / width string), xmlattr(autospace=), "
+        "int(base=), round(method=), replace(count=), trim(chars=), select / reject without test "
+        "...) over per-task data, every use printed as [F:<filter>/<form>=...] and announced to the "
+        "harness (fuse()); every generated-template case is followed by a small PAIR CASE "
+        "(2-3 tasks, <= 3 gates + start each, usually all orders): task 0 = g(), one rare form of "
+        "each of 8 filters, g() / task 1 = plain forms of the same 8 filters, g(), the plain forms "
+        "again, each next to 0-2 other fragments (40%: 2-4 uses of random filters in random forms "
+        "around g() calls, else any fragment of the list above), with the g() calls of the pair "
+        "always among the gates; shard and case number select the 8 filters (consecutive slices of the 32), so "
+        "every filter with a rare form is paired whatever the seed; schedules_rare_filter_form_"
+        "in_one_task_between_plain_uses_in_another counts schedules in which a task used a rare "
+        "form of a filter between two plain uses of that filter by another task; ENVIRONMENT "
+        "POLICIES: 3 of 4 cases configure policy values of their own (json.dumps_kwargs, "
+        "truncate.leeway, urlize.rel / target / extra_schemes; fresh objects per environment), the "
+        "others keep the default policy objects; SHARED EVAL CONTEXT OF THE CACHED "
         "LIBRARY: imported macros that await g() inside an autoescape block (true / false / "
         "data-dependent / nested / around caller()) and imported probe macros whose output depends "
         "on the eval context they are handed (join / replace / xmlattr / urlize over text + Markup, a "
@@ -80,7 +107,11 @@ RULE = ("case = generated template set (import library cached per environment, w
         "in rotated task order (shard + case number) before the schedules, and again after them "
         "(alone_renders_after-the-schedules): a difference is keyed interference:persisted-in-"
         "process:<fragment label>. Inside an awaitable-kinds fragment the label carries the value: "
-        "awaitable-kinds:<kind>-via-<channel>. schedules_same_type_family_plain_then_awaitable_in_"
+        "awaitable-kinds:<kind>-via-<channel>, inside a filter-forms fragment the use: filter-forms:"
+        "<filter>/<form of the differing use>[:other-task-used:<filter>/<forms other tasks used in "
+        "that schedule>]. Before the schedules every task is also rendered alone once more in a "
+        "brand-new environment with the other tasks' alone renders in between "
+        "(alone_renders_before-the-schedules). schedules_same_type_family_plain_then_awaitable_in_"
         "other_task / ..awaitable_then_plain.. count schedules in which a type family went through "
         "the engine as a plain value in one task and later (earlier) as an awaitable in another")
 TECHNIQUE = ("gate-scheduled asyncio tasks, enumerated release orders, differential vs solo render; "
@@ -91,10 +122,17 @@ LEVEL_TEXT = ("held on the executed gate-release orders (all orders of each case
 ASSUMPTIONS = [
     "tasks suspend only at data await points (the engine adds none), so gate-release orders are "
     "all interleavings of the chosen await points",
-    "<= 5 gates per task (start + 4); orders sampled above the per-case cap (quick 400, thorough "
-    "5000)",
+    "<= 5 gates per task (start + 4; start + 3 in the small filter-form pair cases); orders "
+    "sampled above the per-case cap (quick 400, thorough 5000; pair cases 120 / 1500)",
     "solo output = render of the same template+data alone in a fresh environment built from the "
-    "same sources; cases whose solo render is not repeatable in one environment are skipped",
+    "same sources and policy values; a case is skipped when a task's alone render, repeated twice "
+    "in an environment of its own, differs from its reference (the template's own business); the "
+    "tasks do not share that environment - what one task's render leaves behind for another "
+    "task's render on the same environment is what the schedules have to show",
+    "the forms table covers the built-in filters by name (builtin_filters_with_argument_forms; a "
+    "filter of Environment.filters without an entry is counted as builtin_filter_without_"
+    "argument_forms:<name> and not used); all forms are deterministic over the per-task data "
+    "(random only over a one-element list); fuse() is a harness global that only records",
     "the mapping `shared_init` handed to namespace(...) is one dict per schedule shared by that "
     "schedule's tasks (a fresh one for each solo render); namespace() is documented to be "
     "initialised FROM a mapping, so writes to the namespace must not reach the mapping",
@@ -120,6 +158,25 @@ ASSUMPTIONS = [
 ]
 NSHARDS = {"quick": 16, "thorough": 16}
 BUDGET_S = {"quick": 12, "thorough": 420}
+_PAIR = "cases_pairing_rare_filter_forms_in_one_task_with_plain_uses_around_a_gate_in_another"
+FF_FLOORS_QUICK = {
+    "builtin_filters_with_argument_forms": 640, _PAIR: 8, "cases_with_filter_forms_fragment": 12,
+    "filter_form_uses": 30000, "filter_form_uses_rare_argument_form": 9000,
+    "schedules_rare_filter_form_in_one_task_between_plain_uses_in_another": 200,
+    "distinct_rare_filter_argument_forms_in_case": 100,
+    "cases_with_environment_specific_policy_values": 12, "cases_with_default_policy_objects": 4,
+    "alone_renders_before-the-schedules": 30,
+    **{"cases_with_rare_form_between_plain_uses_of_other_task:" + f: 2 for f in FF.WITH_RARE},
+}
+FF_FLOORS_THOROUGH = {
+    "builtin_filters_with_argument_forms": 640, _PAIR: 50, "cases_with_filter_forms_fragment": 50,
+    "filter_form_uses": 800000, "filter_form_uses_rare_argument_form": 230000,
+    "schedules_rare_filter_form_in_one_task_between_plain_uses_in_another": 9000,
+    "distinct_rare_filter_argument_forms_in_case": 500,
+    "cases_with_environment_specific_policy_values": 70, "cases_with_default_policy_objects": 25,
+    "alone_renders_before-the-schedules": 200,
+    **{"cases_with_rare_form_between_plain_uses_of_other_task:" + f: 12 for f in FF.WITH_RARE},
+}
 FLOORS = {
     "quick": {"evaluations": 3000, "distinct": 2500,
               "counters": {"schedules": 2000, "task_outputs_compared": 6000, "cases": 8,
@@ -147,7 +204,8 @@ FLOORS = {
                            "modrace_schedules_probing_eval_context_during_such_suspension": 400,
                            "modrace_cases": 6, "modrace_schedules": 800,
                            "modrace_import_while_body_suspended": 500,
-                           "modrace_cases_all_orders_enumerated": 3}},
+                           "modrace_cases_all_orders_enumerated": 3,
+                           **FF_FLOORS_QUICK}},
     "thorough": {"evaluations": 120000, "distinct": 120000,
                  "counters": {"schedules": 120000, "task_outputs_compared": 300000, "cases": 70,
                               "gates_released": 1500000, "schedules_fresh_env": 6000,
@@ -174,7 +232,8 @@ FLOORS = {
                               "alone_renders_after-the-schedules": 330,
                               "modrace_cases": 90, "modrace_schedules": 100000,
                               "modrace_import_while_body_suspended": 80000,
-                              "modrace_cases_all_orders_enumerated": 70}},
+                              "modrace_cases_all_orders_enumerated": 70,
+                              **FF_FLOORS_THOROUGH}},
 }
 
 
@@ -193,6 +252,13 @@ class Watch:
         # (task id, type family, awaitable?, kind) of every value of the kinds workload
         # handed to the engine, in execution order
         self.kind_events = []
+        # (task id, filter, argument form) of every use in a filter-forms fragment, in
+        # execution order
+        self.filter_events = []
+
+    def fuse(self, filt, form):
+        self.filter_events.append((self.tid(), filt, form))
+        return ""
 
     def kind_orders(self):
         """-> set of 'plain-then-awaitable' / 'awaitable-then-plain': some type family
@@ -285,7 +351,11 @@ def make_env(case):
 
     env.globals["zone"] = lambda name: holder.watch.zone(name)
     env.globals["ectx"] = ectx
+    env.globals["fuse"] = lambda filt, form: holder.watch.fuse(filt, form)
     env.filters["mk"] = KN.mk_filter
+    # environment-specific policy values: fresh objects for every environment
+    for key, val in (case.get("policies") or {}).items():
+        env.policies[key] = copy.deepcopy(val)
     return env
 
 
@@ -301,12 +371,14 @@ class TaskData:
         # mapping handed to namespace(...): one per schedule, shared by its tasks
         self.shared_init = shared_init if shared_init is not None else new_shared_init()
         self.calls = 0
+        self.tags = []
         self.gate_at = frozenset(gate_at)
         self.gate = gate
         self.passed = 0
 
     async def g(self, tag):
         self.calls += 1
+        self.tags.append(str(tag))
         self.watch.ticks += 1
         if self.calls in self.gate_at:
             await self.watch.gated(self.tid, self.gate)
@@ -318,20 +390,26 @@ class TaskData:
         return {"name": s["name"], "xs": list(s["xs"]), "ys": list(s["ys"]), "skip": s["skip"],
                 "ae": s["ae"], "tree": s["tree"], "g": self.g,
                 "init": {"n": 0, "acc": s["name"]}, "shared_init": self.shared_init,
-                "k": KN.Kinds(s["name"], self.g, self._note)}
+                "k": KN.Kinds(s["name"], self.g, self._note),
+                **FF.data(s["name"], list(s["xs"]))}
 
     def _note(self, family, aw, kind):
         self.watch.kind_events.append((self.tid, family, aw, kind))
 
 
-def solo(loop, env, spec):
+def solo3(loop, env, spec):
+    """-> (output, number of g() calls, their tags)"""
     async def nogate():
         return None
 
     env.vt_holder.watch = Watch()
     td = TaskData(spec, (), nogate, watch=env.vt_holder.watch)
     out = loop.run_until_complete(env.get_template(spec["main"]).render_async(**td.vars()))
-    return out, td.calls
+    return out, td.calls, td.tags
+
+
+def solo(loop, env, spec):
+    return solo3(loop, env, spec)[:2]
 
 
 class Stuck(Exception):
@@ -422,6 +500,10 @@ def first_diff_label(a, b):
         uses = list(_USE.finditer(a, i, pos + 1))
         if uses:
             lab += ":%s-via-%s" % (uses[-1].group(2), uses[-1].group(1))
+    if lab == "filter-forms":
+        u = FF.last_use(a, i, pos + 1)
+        if u:
+            lab += ":%s/%s" % u
     return lab
 
 
@@ -452,7 +534,22 @@ def summarize(res, released, dev, watch):
             "kinds_aw": sum(1 for e in watch.kind_events if e[2]),
             "kinds_plain": sum(1 for e in watch.kind_events if not e[2]),
             "kinds": {k: sum(1 for e in watch.kind_events if e[3] == k)
-                      for k in sorted({e[3] for e in watch.kind_events})}}
+                      for k in sorted({e[3] for e in watch.kind_events})},
+            "ff_uses": len(watch.filter_events),
+            "ff_rare": sum(1 for e in watch.filter_events if e[2] != FF.PLAIN),
+            # filters of which one task used a rare form between two plain uses of another
+            "ff_sandwich": FF.sandwiches(watch.filter_events),
+            # filter -> [[task, form], ...] (distinct, execution order)
+            "ff_forms": _forms_by_filter(watch.filter_events)}
+
+
+def _forms_by_filter(events):
+    out = {}
+    for tid, filt, form in events:
+        lst = out.setdefault(filt, [])
+        if [tid, form] not in lst:
+            lst.append([tid, form])
+    return out
 
 
 def count_watch(ctx, sm, prefix=""):
@@ -466,6 +563,13 @@ def count_watch(ctx, sm, prefix=""):
         ctx.count(prefix + "schedules_probing_eval_context_during_such_suspension")
     if prefix:
         return
+    ctx.count("filter_form_uses", sm["ff_uses"])
+    ctx.count("filter_form_uses_rare_argument_form", sm["ff_rare"])
+    if sm["ff_sandwich"]:
+        ctx.count("schedules_rare_filter_form_in_one_task_between_plain_uses_in_another")
+        ctx.count("filters_with_rare_form_in_one_task_between_plain_uses_in_another",
+                  len(sm["ff_sandwich"]))
+        _CASE_FF.update(sm["ff_sandwich"])
     ctx.count("kind_values_awaitable", sm["kinds_aw"])
     ctx.count("kind_values_plain", sm["kinds_plain"])
     for k, v in sm["kinds"].items():
@@ -474,6 +578,20 @@ def count_watch(ctx, sm, prefix=""):
         # a type family went through the engine as a plain value in one task and later
         # (earlier) as an awaitable in another task
         ctx.count("schedules_same_type_family_" + o.replace("-", "_") + "_in_other_task")
+
+
+_CASE_FF = set()     # filters sandwiched in some schedule of the case being run
+
+
+def filter_form_key(lab, tid, sm):
+    """'filter-forms:<filter>/<form>' -> mechanism key; names the argument forms of the
+    same filter that OTHER tasks used in the schedule."""
+    filt, _, form = lab.split(":", 1)[1].partition("/")
+    other = sorted({f for t, f in sm.get("ff_forms", {}).get(filt, []) if t != tid and f != form})
+    key = "interference:" + lab
+    if other:
+        key += ":other-task-used:" + filt + "/" + "+".join(other)
+    return key
 
 
 def shared_evalctx_key_of(overlap):
@@ -519,6 +637,8 @@ def judge_schedule(ctx, case, gates, ref_out, order, sm, where):
             key = "interference:" + lab
             if sm["overlap"] and lab in GEN.LIB_USING_LABELS:
                 key = shared_evalctx_key_of(sm["overlap"])
+            elif lab.startswith("filter-forms:"):
+                key = filter_form_key(lab, tid, sm)
             ctx.violation(key,
                           "task %d (%s, name=%r) under release order %s produced %r, alone "
                           "%r (first differing fragment: "
@@ -616,13 +736,27 @@ def prepare(ctx, case, loop, first, pristine, maxg=4):
                                    "after-the-first-renders-of-the-process",
                                    {"first": first}, rot):
                 return None
-        got = {tid: solo(loop, make_env(case), tasks[tid]) for tid in rot}
+        got = {tid: solo3(loop, make_env(case), tasks[tid]) for tid in rot}
         ref_out = early or [got[tid][0] for tid in range(n)]
         ncalls = [got[tid][1] for tid in range(n)]
-        # repeatability in one environment (sequential state is another property's business)
-        env0 = make_env(case)
-        for _ in range(2):
-            for spec, o in zip(tasks, ref_out):
+        # g() calls the gate chooser prefers (tags 'ff..': the await points of the forced
+        # filter-form pairs)
+        prefer = [[i for i, t in enumerate(got[tid][2], 1) if t.startswith("ff")]
+                  for tid in range(n)]
+        # every task alone once more, each in a brand-new environment: the alone renders
+        # of the OTHER tasks lie in between (reverse order, so the one rendered first now
+        # comes after all others)
+        if not early and not inprocess_alone(ctx, case, loop, ref_out, "before-the-schedules",
+                                             {"alone_before": True, "rot_first": first},
+                                             tuple(reversed(rot))):
+            return None
+        # repeatability of each task's render in an environment of its own (a template
+        # whose own repeated render differs is another property's business).  The tasks
+        # do NOT share that environment: what one task's render leaves behind for another
+        # task's render is exactly what the schedules below must be able to show
+        for spec, o in zip(tasks, ref_out):
+            env0 = make_env(case)
+            for _ in range(2):
                 if solo(loop, env0, spec)[0] != o:
                     ctx.count("case_skipped_solo_not_repeatable")
                     return None
@@ -632,7 +766,8 @@ def prepare(ctx, case, loop, first, pristine, maxg=4):
     except Exception as e:
         ctx.count("case_rejected:" + type(e).__name__)
         return None
-    gates = [GEN.choose_gates(spec["gate_picks"], c, maxg) for spec, c in zip(tasks, ncalls)]
+    gates = [GEN.choose_gates(spec["gate_picks"], c, maxg, pf)
+             for spec, c, pf in zip(tasks, ncalls, prefer)]
     return ref_out, gates
 
 
@@ -648,8 +783,12 @@ def kind_families(src):
     return fam
 
 
+_FFUSE = re.compile(r"\[F:([a-z]+)/([a-z_]+)=")
+
+
 def run_case(ctx, case, quick, rng, loop, first=0, pristine=False):
-    prep = prepare(ctx, case, loop, first % len(case["tasks"]), pristine)
+    _CASE_FF.clear()
+    prep = prepare(ctx, case, loop, first % len(case["tasks"]), pristine, case.get("maxg", 4))
     if prep is None:
         return
     solo_out, gates = prep
@@ -657,6 +796,10 @@ def run_case(ctx, case, quick, rng, loop, first=0, pristine=False):
     counts = [len(g) + 1 for g in gates]
     total = GEN.n_orders(counts)
     cap = 400 if quick else 5000
+    if case.get("ff_pair"):
+        # the small cases built around a filter-form pair ride along with every
+        # generated-template case: few gates, so usually all orders are below this cap
+        cap = 120 if quick else 1500
     ctx.count("cases")
     ctx.count("cases_%d_tasks" % len(tasks))
     if len({t["main"] for t in tasks}) < len(tasks):
@@ -671,6 +814,16 @@ def run_case(ctx, case, quick, rng, loop, first=0, pristine=False):
         ctx.count("cases_with_imported_macro_awaiting_inside_autoescape_block")
         if any("lib.sense" in x for x in srcs):
             ctx.count("cases_with_imported_autoescape_macro_and_evalctx_probe")
+    ffuses = sorted({m.group(0) for x in srcs for m in _FFUSE.finditer(x)})
+    if ffuses:
+        ctx.count("cases_with_filter_forms_fragment")
+        ctx.count("distinct_filter_argument_forms_in_case", len(ffuses))
+        ctx.count("distinct_rare_filter_argument_forms_in_case",
+                  sum(1 for u in ffuses if not u.endswith("/" + FF.PLAIN + "=")))
+    if case.get("ff_pair"):
+        ctx.count("cases_pairing_rare_filter_forms_in_one_task_with_plain_uses_around_a_gate_in_another")
+    ctx.count("cases_with_environment_specific_policy_values" if case.get("policies")
+              else "cases_with_default_policy_objects")
     fams = [kind_families(x) for x in srcs]
     if any(fams):
         ctx.count("cases_with_awaitable_kinds_fragment")
@@ -727,6 +880,8 @@ def run_case(ctx, case, quick, rng, loop, first=0, pristine=False):
             ctx.count("cases_cut_by_time")
             break
     ctx.extra["interleavings_executed"] = ctx.extra.get("interleavings_executed", 0) + executed
+    for f in sorted(_CASE_FF):
+        ctx.count("cases_with_rare_form_between_plain_uses_of_other_task:" + f)
     # ... and alone again, after the concurrent schedules ran in this process
     inprocess_alone(ctx, case, loop, solo_out, "after-the-schedules", {"gates": gates, "order": last})
 
@@ -981,6 +1136,12 @@ def run(ctx):
     quick = ctx.tier == "quick"
     rng = ctx.rng("gen")
     loop = asyncio.new_event_loop()
+    from jinja2 import Environment
+    avail = sorted(set(Environment(enable_async=True).filters))
+    ctx.count("builtin_filters_with_argument_forms", sum(1 for f in avail if f in FF.TABLE))
+    for f in avail:
+        if f not in FF.TABLE:
+            ctx.count("builtin_filter_without_argument_forms:" + f)
     try:
         i = 0
         nmax = 400 if quick else 20000
@@ -998,9 +1159,17 @@ def run(ctx):
                 # this machine to start more of them); the shard number decides which of
                 # the two tasks goes first
                 case = GEN.gen_case(rng, force_evalctx=(i % 4 == 2), force_kinds=(i % 6 == 0),
-                                    all_families=(i == 0))
+                                    all_families=(i == 0), rng2=ctx.rng("policies%d" % i))
                 run_case(ctx, case, quick, ctx.rng("case%d" % i), loop,
                          first=ctx.shard + i // 2, pristine=(i == 0))
+                # ... followed by a small case that pairs a task using rare argument
+                # forms of 8 built-in filters between two gates with a task using the
+                # plain forms of the same filters before and after a gate; shard and
+                # case number select the filters, so all filters with rare forms are
+                # paired whatever the seed
+                pair = GEN.gen_pair_case(ctx.rng("pair%d" % i), ctx.shard + 3 * (i // 2), avail)
+                run_case(ctx, pair, quick, ctx.rng("paircase%d" % i), loop,
+                         first=ctx.shard + i // 2)
             i += 1
     finally:
         loop.run_until_complete(loop.shutdown_asyncgens())
@@ -1025,7 +1194,9 @@ def replay(ctx, obj):
             first = h["first"] if "first" in h else obj["order"][0]
             prepare(ctx, case, loop, first, True)
             return
-        prep = prepare(ctx, case, loop, 0, False)
+        # (same rotation of the alone renders as in the recorded run)
+        prep = prepare(ctx, case, loop, int(h.get("rot_first") or 0) % len(case["tasks"]), False,
+                       case.get("maxg", 4))
         if prep is None:
             return
         solo_out, _ = prep
